@@ -137,7 +137,12 @@ def composites():
             D.make('HvParamPair', 'pair', D.wire('a', 8), D.wire('load'), D.wire('r', 8), pname, 7, first, rel=CASES_REL)
             return None
         return f
-    return [('parameter pass-through (first instance, own name)', params(True, 'START')), ('parameter pass-through (first instance, same name)', params(True, 'INIT')),
+    def shadow_local(D):
+        # a behavioural block with a local variable named like its output port (the port must not be declared a second time)
+        from .c02 import CASES_REL
+        D.make('HvShadowOut', 'sh', D.wire('a', 3), D.wire('b', 3), D.wire('c', 3), D.wire('r', 3), rel=CASES_REL)
+        return None
+    return [('behavioural block with a local named like a port', shadow_local), ('parameter pass-through (first instance, own name)', params(True, 'START')), ('parameter pass-through (first instance, same name)', params(True, 'INIT')),
             ('parameter pass-through (second instance)', params(False, 'START')),
             ('user classes without structureName', user_classes), ('same-named children, different structure', same_inner), ('Reg x5 (shared names)', regs), ('Add x5 (shared names)', adds), ('Abs/Neg/Sign', abss), ('BufEnable/Latch/Comparator', misc),
             ('inner wire named like an outer wire', shadow), ('second clock domain', two_domains), ('nested + fan-out', nested)]
